@@ -438,6 +438,42 @@ Spans of submodels differ:
 
             return check_values
 
+        # Optionally copy initial values from another period (as in `BaseModel`),
+        # for the linker and the submodels to solve
+        if offset:
+            t_check = t
+            if t_check < 0:
+                t_check += len(self.span)
+
+            # Error if `offset` points prior to the current model span
+            if t_check + offset < 0:
+                raise IndexError(
+                    f'`offset` argument ({offset}) for position `t` ({t}) '
+                    f'implies a period before the span of the current model instance: '
+                    f'{offset} + {t} -> position {offset + t_check} < 0'
+                )
+
+            # Error if `offset` points beyond the current model span
+            if t_check + offset >= len(self.span):
+                raise IndexError(
+                    f'`offset` argument ({offset}) for position `t` ({t}) '
+                    f'implies a period beyond the span of the current model instance: '
+                    f'{offset} + {t} -> position {offset + t_check} >= {len(self.span)} periods in span'
+                )
+
+            models_to_initialise = [self]
+            for name in submodels:
+                try:
+                    models_to_initialise.append(self.__dict__['submodels'][name])
+                except KeyError as e:
+                    raise KeyError(f"'{name}' not found in list of submodels") from e
+
+            for model in models_to_initialise:
+                for name in model.endogenous:
+                    model.__dict__['_' + name][t] = model.__dict__['_' + name][
+                        t + offset
+                    ]
+
         status = SolutionStatus.UNSOLVED.value
         current_values = get_check_values()
 
